@@ -86,7 +86,7 @@ def build_service(methods: list[MethodSpec], version: str | None = None, uid: st
     if version is not None:
         proto_lines.append(f"    protocol_version: ClassVar[str] = {version!r}")
     for m in methods:
-        sig_parts = ["self", "tag: int"]
+        sig_parts = ["self", "tag: int" + (f" = {m.defaults['tag']}" if "tag" in m.defaults else "")]
         for pname, t in m.params:
             s = f"{pname}: {rt.TYPE_SRC[t]}"
             if pname in m.defaults:
